@@ -9,7 +9,8 @@
    while it is active (the header's precondition); after it marked itself inactive it sleeps until
    the queue is active again, which happens exactly when a producer's enqueue() returns true
    ("consumer was inactive, you must wake it up") or when the consumer itself calls
-   try_mark_active.  So those operations are modelled as blocked while head_ is the marker.
+   try_mark_active.  So those operations are modelled as blocked while head_ is the marker
+   (when every producer has finished the sleeping consumer reactivates itself instead).
    compare_exchange_weak is modelled without spurious failures (a spurious failure re-runs the
    loop body with the same expected value and has no other effect).
    Executable definitions only. *)
@@ -62,7 +63,8 @@ Record st := {
   delivered : list item;      (* concatenation of all batches returned to the consumer so far *)
   wakes : nat;                (* number of enqueue() calls that returned true *)
   marks : nat;                (* number of successful try_mark_inactive *)
-  actives : nat               (* number of successful try_mark_active *)
+  actives : nat;              (* number of successful try_mark_active *)
+  finalph : bool              (* OpFinal has begun: every producer is done *)
 }.
 
 Inductive ev :=
@@ -77,7 +79,7 @@ Inductive ev :=
 Definition init (active : bool) (counts : list nat) (ops : list cop) : st :=
   {| inactive := negb active; stack := []; script := ops; cons := CStart;
      prods := map (fun n => (n, PLoad 0)) counts;
-     enq := []; delivered := []; wakes := 0; marks := 0; actives := 0 |}.
+     enq := []; delivered := []; wakes := 0; marks := 0; actives := 0; finalph := false |}.
 
 Fixpoint set_nth {A} (n : nat) (x : A) (l : list A) : list A :=
   match l, n with
@@ -99,27 +101,32 @@ Definition all_prods_done (s : st) : bool := forallb prod_done (prods s).
 (* field updates *)
 Definition set_head (s : st) (ina : bool) (stk : list item) : st :=
   {| inactive := ina; stack := stk; script := script s; cons := cons s; prods := prods s;
-     enq := enq s; delivered := delivered s; wakes := wakes s; marks := marks s; actives := actives s |}.
+     enq := enq s; delivered := delivered s; wakes := wakes s; marks := marks s; actives := actives s; finalph := finalph s |}.
 Definition set_cons (s : st) (ops : list cop) (c : cpc) : st :=
   {| inactive := inactive s; stack := stack s; script := ops; cons := c; prods := prods s;
-     enq := enq s; delivered := delivered s; wakes := wakes s; marks := marks s; actives := actives s |}.
+     enq := enq s; delivered := delivered s; wakes := wakes s; marks := marks s; actives := actives s; finalph := finalph s |}.
 Definition set_prod (s : st) (i : nat) (p : nat * ppc) : st :=
   {| inactive := inactive s; stack := stack s; script := script s; cons := cons s;
      prods := set_nth i p (prods s);
-     enq := enq s; delivered := delivered s; wakes := wakes s; marks := marks s; actives := actives s |}.
+     enq := enq s; delivered := delivered s; wakes := wakes s; marks := marks s; actives := actives s; finalph := finalph s |}.
 Definition add_enq (s : st) (it : item) (woke : bool) : st :=
   {| inactive := inactive s; stack := stack s; script := script s; cons := cons s; prods := prods s;
      enq := enq s ++ [it]; delivered := delivered s;
-     wakes := if woke then S (wakes s) else wakes s; marks := marks s; actives := actives s |}.
+     wakes := if woke then S (wakes s) else wakes s; marks := marks s; actives := actives s; finalph := finalph s |}.
 Definition add_delivered (s : st) (b : list item) : st :=
   {| inactive := inactive s; stack := stack s; script := script s; cons := cons s; prods := prods s;
-     enq := enq s; delivered := delivered s ++ b; wakes := wakes s; marks := marks s; actives := actives s |}.
+     enq := enq s; delivered := delivered s ++ b; wakes := wakes s; marks := marks s; actives := actives s; finalph := finalph s |}.
 Definition add_mark (s : st) : st :=
   {| inactive := inactive s; stack := stack s; script := script s; cons := cons s; prods := prods s;
-     enq := enq s; delivered := delivered s; wakes := wakes s; marks := S (marks s); actives := actives s |}.
+     enq := enq s; delivered := delivered s; wakes := wakes s; marks := S (marks s); actives := actives s; finalph := finalph s |}.
 Definition add_active (s : st) : st :=
   {| inactive := inactive s; stack := stack s; script := script s; cons := cons s; prods := prods s;
-     enq := enq s; delivered := delivered s; wakes := wakes s; marks := marks s; actives := S (actives s) |}.
+     enq := enq s; delivered := delivered s; wakes := wakes s; marks := marks s; actives := S (actives s); finalph := finalph s |}.
+
+Definition set_final (s : st) : st :=
+  {| inactive := inactive s; stack := stack s; script := script s; cons := cons s; prods := prods s;
+     enq := enq s; delivered := delivered s; wakes := wakes s; marks := marks s; actives := actives s;
+     finalph := true |}.
 
 (* producer number i (thread id S i) *)
 Definition step_prod (i : nat) (s : st) : option (st * list ev) :=
@@ -152,6 +159,12 @@ Definition do_mark_active (s : st) (rest : list cop) : st * list ev :=
   then (set_cons (add_active (set_head s false [])) rest CStart, [EMarkActive PInactive true])
   else (set_cons s rest CStart, [EMarkActive (head_ptr s) false]).
 
+(* the consumer sleeps (inactive) and its next operation needs it active: it stays blocked until
+   a producer reactivates the queue; once no producer is left it reactivates itself with
+   try_mark_active (a consumer woken for another reason) and retries the operation *)
+Definition self_wake (s : st) (op : cop) (rest : list cop) : option (st * list ev) :=
+  if all_prods_done s then Some (do_mark_active s (op :: rest)) else None.
+
 Definition step_cons (s : st) : option (st * list ev) :=
   match script s with
   | [] => None
@@ -161,15 +174,17 @@ Definition step_cons (s : st) : option (st * list ev) :=
           match op with
           | OpTryActive => Some (do_mark_active s rest)
           | OpFinal =>
-              if all_prods_done s then Some (do_mark_active s (OpDeq :: rest)) else None
+              if all_prods_done s
+              then let (s1, e) := do_mark_active s (OpDeq :: rest) in Some (set_final s1, e)
+              else None
           | OpDeq =>
-              if inactive s then None
+              if inactive s then self_wake s op rest
               else match stack s with
                    | [] => Some (set_cons s rest CStart, [ELoad PNull; EBatch []])
                    | x :: _ => Some (set_cons s (op :: rest) CXchg, [ELoad (PItem x)])
                    end
           | OpTryInactive | OpInactiveOrDeq =>
-              if inactive s then None
+              if inactive s then self_wake s op rest
               else
                 let ordeq := match op with OpInactiveOrDeq => true | _ => false end in
                 match stack s with
